@@ -67,12 +67,18 @@ private theorem sum_ones (c : List Int) (a : Int) :
   | nil => rfl
   | cons x xs ih => simp [List.foldl_cons, ih]
 
+private theorem sq_eq (q : Rat) : q * q = q ^ 2 := by
+  rw [show (2 : Nat) = 1 + 1 from rfl, Rat.pow_succ, Rat.pow_one]
+
+/-- the code squares a deviation with a product (`(v - mean) * (v - mean)`), the model writes `^ 2` -/
 private theorem sum_sq (c : List Int) (m : Rat) (a : Rat) :
-    (c.map (fun v => (((v : Int) : Rat) - m) ^ 2)).foldl (· + ·) a
+    (c.map (fun v => (((v : Int) : Rat) - m) * (((v : Int) : Rat) - m))).foldl (· + ·) a
       = c.foldl (fun (acc : Rat) (v : Int) => acc + ((v : Rat) - m) ^ 2) a := by
   induction c generalizing a with
   | nil => rfl
-  | cons x xs ih => simp [List.foldl_cons, ih]
+  | cons x xs ih =>
+    simp only [List.map_cons, List.foldl_cons]
+    rw [ih, sq_eq]
 
 theorem sumAgg_eq (vals : List (Option Int)) : sumTAgg vals = sumF vals := rfl
 theorem sumWin_eq (vals : List (Option Int)) : sumTWin vals = sumF vals := rfl
@@ -100,7 +106,8 @@ theorem meanWin_eq (vals : List (Option Int)) : meanTWin vals = meanF vals := by
 
 private theorem var_core (c : List Int) :
     (if decide (((c.length : Nat) : Int) ≤ (1 : Int)) = true then (none : Option Rat)
-     else some (pySumRat (c.map (fun v => (((v : Int) : Rat) - (((pySumInt c : Int) : Rat) / ((c.length : Nat) : Rat))) ^ 2))
+     else some (pySumRat (c.map (fun v => (((v : Int) : Rat) - (((pySumInt c : Int) : Rat) / ((c.length : Nat) : Rat)))
+                                          * (((v : Int) : Rat) - (((pySumInt c : Int) : Rat) / ((c.length : Nat) : Rat)))))
                 / (((((c.length : Nat) : Int) - (1 : Int)) : Int) : Rat)))
       = (if c.length ≤ 1 then none
          else some (c.foldl (fun (acc : Rat) (v : Int) => acc + ((v : Rat) - ((isum c : Rat) / (c.length : Rat))) ^ 2) 0
